@@ -149,6 +149,12 @@ func openRTSP(t evid.TB, s *srv.Server, pl *plan, path string) *rtspc.Client {
 	url := s.RTSP(path)
 	do := func(method, u string, h map[string]string) *rtspc.Response {
 		r, err := c.Do(method, u, h, nil)
+		if fe, ok := err.(*rtspc.FramingError); ok {
+			// the play dialogue itself is server output under the same grammar
+			c.Close()
+			atomic.StoreInt32(&sawViolation, 1)
+			evid.Violation(t, "tcp-grammar", map[string]any{"plan": pl, "during": method + " of the play dialogue"}, "tcp (grammar): answering %s of the play dialogue: %v", method, fe)
+		}
 		if err != nil || r.Status != 200 {
 			c.Close()
 			t.Fatalf("machinery: %s %s before the case: %v %+v", method, u, err, r)
@@ -322,12 +328,12 @@ func report(t evid.TB, pl *plan, res *result) {
 	evid.Violation(t, pl.Transport+"-"+res.v.Check, f, "%s (%s): %s; windows fired %v; items %s", pl.Transport, res.v.Check, res.v.Msg, f.Fired, f.Items)
 }
 
-func windowedRTSP(t *testing.T, transport string, quick, thorough int) {
+func windowedRTSP(t *testing.T, transport string, bursty bool, quick, thorough int) {
 	evid.Rule(ruleText)
 	evid.Assume("ipchub flushes interleaved media lazily (at most 30 flushes/s, on a later write): the harness keeps publishing filler packets until the sentinel arrives and never judges the unflushed tail")
 	label := transport + " windows"
 	checkParallel(t, quick, thorough, func(rt *rapid.T) {
-		pl := genPlan(rt, transport)
+		pl := genPlan(rt, transport, bursty)
 		evid.Eval(1)
 		res := runRTSP(rt, pl)
 		report(rt, pl, res)
@@ -349,12 +355,19 @@ func windowedRTSP(t *testing.T, transport string, quick, thorough int) {
 
 func TestWindowsTCP(t *testing.T) {
 	t.Parallel()
-	windowedRTSP(t, "tcp", 70, 900)
+	windowedRTSP(t, "tcp", false, 150, 1500)
+}
+
+// the same with large packets and hardly any waiting: frames and responses are
+// written while the 128 KiB connection buffer overflows and is flushed in parts
+func TestWindowsTCPBursty(t *testing.T) {
+	t.Parallel()
+	windowedRTSP(t, "tcp", true, 100, 1000)
 }
 
 func TestWindowsWS(t *testing.T) {
 	t.Parallel()
-	windowedRTSP(t, "ws", 50, 700)
+	windowedRTSP(t, "ws", false, 200, 2000)
 }
 
 func stressRTSP(t *testing.T, transport string, quick, thorough int) {
@@ -383,12 +396,12 @@ func stressRTSP(t *testing.T, transport string, quick, thorough int) {
 
 func TestStressTCP(t *testing.T) {
 	t.Parallel()
-	stressRTSP(t, "tcp", 12, 150)
+	stressRTSP(t, "tcp", 30, 300)
 }
 
 func TestStressWS(t *testing.T) {
 	t.Parallel()
-	stressRTSP(t, "ws", 8, 100)
+	stressRTSP(t, "ws", 20, 200)
 }
 
 // TestReplayFile re-runs the plan of a saved violation.
